@@ -12,8 +12,8 @@ func init() {
 	register(&propInfo{
 		ID:          "C12",
 		Run:         runC12,
-		MinObl:      21,
-		Explanation: "Every element below the exact length of a requested-scope list must have been accepted by the strategy (an element the path never mentions was skipped, not accepted). NOT decided (not applicable to this family): that the three scope strategies and two audience strategies decide exactly as documented — a statement about the results of small string algorithms; no structural necessary condition short of re-deriving the algorithm exists and a frozen-shape check would be a brittle proxy. Decided — the confinement half: R1 every flow validates what it is asked for: at every success exit (token-endpoint grants client_credentials, password, JWT-bearer) / issuing sink (authorization-endpoint handlers; layers: NewAuthorizeRequest or the handler), at the PAR endpoint (layers: NewPushedAuthorizeRequest or the PAR handler) and at the device endpoint, every iterated requested scope was accepted by the configured scope strategy (GetScopeStrategy, not a constant) against the client's registered scopes (JWT-bearer: the signing key's scopes from GetPublicKeyScopes) with the loop left only by exhaustion, and the configured audience strategy returned nil for (client audience, requested audience) where the flow takes an audience; R2 every GrantScope/GrantAudience in the handlers takes an element of the stored grant, or (JWT-bearer) of the validated requested scopes / the verified assertion's audience; R3 JWT access-token claims and the scope response field are built from GetGrantedScopes/GetGrantedAudience only.",
+		MinObl:      33,
+		Explanation: "Every element below the exact length of a requested-scope list must have been accepted by the strategy (an element the path never mentions was skipped, not accepted). Strategy bodies (R11–R16; every path of the five strategy functions of the root package, found by signature; module helpers and the generic helpers of package slices traversed in place; loops unrolled to the bound — 7 block visits for the two exact strategies, 3 then 2 for the others, 80 000 paths; a function that exceeds the bounds, or whose decisions rest on a call that is not traversed, is reported as 'abstained' and not decided): R11 comparators — every literal relating a registered entry to a requested value is string equality, a comparison of lengths or indexes, a membership test, or a prefix test that either carries the segment delimiter at the end of the prefix or is followed on the path by a test of what comes after the prefix; no literal depends on a case-folding function; in the scope strategies none depends on a normalising function (Trim*, Fields*, Replace*) of an entry or request, and prefix/suffix tests against a constant are anchored at the delimiter. R12 an accepting path with a non-empty request has examined an element of the registration. R13 ExactScopeStrategy accepts exactly with haystack[k]==needle (loop, slices.Contains or a set built from the entries); ExactAudienceMatchingStrategy accepts only when every needle[j] below the length the path knows equals some haystack[k]. R14 DefaultAudienceMatchingStrategy accepts a requested URL only with one registered URL of equal scheme and equal host and a true equality or prefix literal relating the two paths. R15 WildcardScopeStrategy: on accepting paths one entry has every segment known to be '*' standing against a request segment (same segmentation) known to be non-empty. R16 Hierarchic/WildcardScopeStrategy: on accepting paths one entry equals the request, is a delimiter-terminated prefix of it, or has a known number of segments all of which were compared equal (or are '*') — and, for the wildcard strategy, is as long as the request or ends in '*'. NOT decided: the remaining segment arithmetic (which index is compared with which when state is carried between entries — campaign candidate C12.7/22), the audience path-prefix arithmetic beyond the presence of a path literal, and everything in a spelling the rules abstain on. Decided — the confinement half: R1 every flow validates what it is asked for: at every success exit (token-endpoint grants client_credentials, password, JWT-bearer) / issuing sink (authorization-endpoint handlers; layers: NewAuthorizeRequest or the handler), at the PAR endpoint (layers: NewPushedAuthorizeRequest or the PAR handler) and at the device endpoint, every iterated requested scope was accepted by the configured scope strategy (GetScopeStrategy, not a constant) against the client's registered scopes (JWT-bearer: the signing key's scopes from GetPublicKeyScopes) with the loop left only by exhaustion, and the configured audience strategy returned nil for (client audience, requested audience) where the flow takes an audience; R2 every GrantScope/GrantAudience in the handlers takes an element of the stored grant, or (JWT-bearer) of the validated requested scopes / the verified assertion's audience; R3 JWT access-token claims and the scope response field are built from GetGrantedScopes/GetGrantedAudience only.",
 	})
 }
 
@@ -270,6 +270,7 @@ func smallInline(fn *ssa.Function) bool {
 }
 
 func runC12(c *Ctx) {
+	defer c12Strategies(c)
 	defer checkClaimsWith(c, "C12.R10")
 	defer checkRegisteredClaimsWin(c, "C12.R9", "(*"+pkgJWT+".JWTClaims).ToMap", "scp", "scope", "aud", "sub", "iss", "exp")
 	defer checkGrantedBeforeMint(c, "C12.R8")
